@@ -28,7 +28,7 @@ ConnsOf(r) == ToSet(r.conns)
 
 LInit ==
     /\ i = 0
-    /\ rd \in 1..Len(Rounds)
+    /\ rd \in {k \in 1..Len(Rounds) : WF(FromSnap(Rounds[k].pre, CfgOf(Rounds[k].cfg)))}
     /\ pos = [c \in ConnsOf(Rounds[rd]) |-> 0]
     /\ dpos = [c \in ConnsOf(Rounds[rd]) |-> 0]
     /\ rpos = [x \in ConnsOf(Rounds[rd]) |-> [s \in ConnsOf(Rounds[rd]) |-> 0]]
@@ -87,6 +87,11 @@ KillObserved(x) ==
        ELSE UNCHANGED <<dpos, T>>
     /\ pk' = pk \ {x}
     /\ UNCHANGED <<rd, i, pos, rpos>>
+
+(* a round that starts from a state no behaviour of the specification reaches (left behind by an earlier, *)
+(* already reported round) is not searched                                                                *)
+ASSUME \A k \in 1..Len(Rounds) : WF(FromSnap(Rounds[k].pre, CfgOf(Rounds[k].cfg)))
+                                  \/ PrintT(<<"ILLFORMED", ToJson([b |-> Rounds[k].b, round |-> Rounds[k].round])>>)
 
 LNext == (\E c \in ConnsOf(R0) : StepOf(c)) \/ (\E x \in pk : KillObserved(x))
 LSpec == LInit /\ [][LNext]_lvars
